@@ -33,5 +33,15 @@ def mutants(text, rng, n):
     return out
 
 
-def line_endings(text):
-    return [("crlf", text.replace("\n", "\r\n")), ("cr", text.replace("\n", "\r"))]
+def line_endings(text, rng=None):
+    """whole-file CRLF / CR, and files that MIX the three styles (every line break drawn independently; and a
+    file whose first break differs from all the others, in both directions)"""
+    rng = rng or random.Random(len(text))
+    parts = text.split("\n")
+    def join(pick):
+        return "".join(p + (pick(i) if i < len(parts) - 1 else "") for i, p in enumerate(parts))
+    styles = ["\n", "\r\n", "\r"]
+    a, b = rng.sample(styles, 2)
+    return [("crlf", text.replace("\n", "\r\n")), ("cr", text.replace("\n", "\r")),
+            ("mixed", join(lambda i: rng.choice(styles))),
+            ("mixedfirst", join(lambda i: a if i == 0 else b))]
